@@ -82,4 +82,28 @@ def plan(pid, tier, seed):
                                  "release/acquire sufficiency is argued from the extracted orderings (DESIGN §5.C06)"],
                 "assumptions": ["fewer than 2^63 simultaneous shared borrows (counter-overflow panics out of scope)",
                                 "hardware reordering is not exhibited; orderings are checked syntactically (orderings_sufficient)"]}
+    if pid == "C07":
+        jobs = []
+        ns = NSHARD_THOROUGH
+        for i in range(ns):
+            jobs.append({"engine": "sched-reserve", "name": f"sr-2x2-{i}",
+                         "args": ["--threads", 2, "--maxlen", 2, "--shard", i, "--nshards", ns]})
+        if not q:
+            for i in range(ns):
+                jobs.append({"engine": "sched-reserve", "name": f"sr-3x1-{i}",
+                             "args": ["--threads", 3, "--maxlen", 1, "--shard", i, "--nshards", ns]})
+                jobs.append({"engine": "sched-reserve", "name": f"sr-2x3-{i}",
+                             "args": ["--threads", 2, "--maxlen", 3, "--shard", i, "--nshards", ns, "--cap", 60]})
+        jobs += world_jobs(["reserve"], tier, seed, 60, 20000)
+        return {"jobs": jobs, "nontrivial_min_lines": 8, "exhaustive": True, "exhaustive_note":
+                "all interleavings of all 2-thread program tuples (length <= 2) over {reserve_entity, reserve_entities(0/2/3), "
+                "contains(own/live), contains(dead)} on worlds with free lists of 0,0,1,2,4 ids; the single-threaded "
+                "mixed histories (engine world, profile reserve) are sampled",
+                "rule": "one case = one schedule of one program tuple on one initial world, enumerated depth-first, or one "
+                        "seeded single-threaded history mixing reservation with all world operations; non-trivial = at "
+                        "least 2 calls before the flush",
+                "trusted_base": WORLD_TRUST + ["cooperative scheduler harness/src/sched.rs driving the yield hooks in entities.rs",
+                                               "translator tools/extract_facts.py for the atomic call sites"],
+                "assumptions": ["one atomic access per call (checked: yield count per call == 1) makes every interleaving a "
+                                "sequential order of calls; Relaxed ordering suffices because nothing else is published"]}
     raise SystemExit(f"no plan for property {pid}")
